@@ -233,6 +233,42 @@ def run_history(rec, start, hist, skip_checked_prefix=0):
   return changed
 
 
+ITEM_KINDS = {"str": "Arial", "generic": sp.GenericFontFamilyType.sansSerif, "int": 42, "None": None, "bytes": b"x", "tuple": ("serif",)}
+C_ITEMS = "only a tuple whose EVERY item is a family name or a generic family is a valid tts:fontFamily, and only valid values are stored"
+
+
+def font_family_value(kinds):
+  return tuple(ITEM_KINDS[k] for k in kinds)
+
+
+def font_family_case(kinds):
+  """-> list of failure texts for one sequence of item kinds (validate, set_style, put_initial_value, animation step)"""
+  v = font_family_value(kinds)
+  want = all(k in ("str", "generic") for k in kinds)
+  fails = []
+  got = SP.FontFamily.validate(v)
+  if bool(got) != want:
+    fails.append(f"StyleProperties.FontFamily.validate({v!r}) = {got!r}, the value is {'valid' if want else 'NOT valid'}")
+  d = m.ContentDocument()
+  e = m.Span(d)
+  for what, call, read in (
+      ("set_style", lambda: e.set_style(SP.FontFamily, v), lambda: e.get_style(SP.FontFamily)),
+      ("put_initial_value", lambda: d.put_initial_value(SP.FontFamily, v), lambda: d.get_initial_value(SP.FontFamily)),
+      ("add_animation_step", lambda: e.add_animation_step(m.DiscreteAnimationStep(SP.FontFamily, Fraction(1), None, v)),
+       lambda: next((st.value for st in e.iter_animation_steps()), None))):
+    try:
+      call()
+      raised = None
+    except Exception as ex:  # pylint: disable=broad-except
+      raised = ex
+    stored = read()
+    if not want and stored is not None:
+      fails.append(f"{what} stored the invalid value {v!r} (raised {raised!r})")
+    if want and (raised is not None or stored != v):
+      fails.append(f"{what} rejected or altered the valid value {v!r}: raised {raised!r}, stored {stored!r}")
+  return fails
+
+
 def chunk(job):
   global OPS
   logging.disable(logging.CRITICAL)
@@ -240,6 +276,15 @@ def chunk(job):
   rec = Recorder("C15", "", {})
   kind, start, lo, hi = job
   n = len(OPS)
+  if kind == "items":
+    import itertools
+    names = sorted(ITEM_KINDS)
+    for kinds in itertools.product(names, repeat=start):
+      rec.evaluated(C_ITEMS, hash(("items", kinds)), {"item_kinds": list(kinds)})
+      for text in font_family_case(kinds):
+        rec.fail("value-validity:FontFamily-items", C_ITEMS, text, {"item_kinds": list(kinds)},
+                 replayer="replayers.c15:font_family", replay_args={"item_kinds": list(kinds)})
+    return rec
   if kind == "len2":
     # every history of length <= 2; a first call that leaves the model unchanged needs no second level
     # (the second call would act on the start state, which the length-1 histories already cover)
@@ -272,6 +317,8 @@ def main():
   for start in (0, 1, 2):
     for k in range(8):
       jobs.append(("walk", start, 10 + k if QUICK else (3 if k < 4 else 12), walks // 8))
+  for length in range(0, 5 if QUICK else 6):     # EVERY sequence of item kinds up to that length (6 kinds: 1555 / 9331 tuples)
+    jobs.append(("items", length, 0, 0))
   for part in parallel(chunk, jobs):
     rec.merge(part)
   rec.exhaustive = False   # exhaustive up to length 2 over the stated universe only
